@@ -16,6 +16,7 @@ pub struct Report {
     pub tier: String,
     pub level: String,
     pub start: Instant,
+    pub evals: std::sync::atomic::AtomicU64,
     pub inner: Mutex<Inner>,
 }
 
@@ -42,10 +43,10 @@ impl Report {
     pub fn new(property: &str, tier: &str, level: &str) -> Report {
         let mut inner = Inner::default();
         inner.exhaustive = true;
-        Report { property: property.into(), tier: tier.into(), level: level.into(), start: Instant::now(), inner: Mutex::new(inner) }
+        Report { property: property.into(), tier: tier.into(), level: level.into(), start: Instant::now(), evals: std::sync::atomic::AtomicU64::new(0), inner: Mutex::new(inner) }
     }
     pub fn eval(&self, n: u64) {
-        self.inner.lock().unwrap().evaluations += n;
+        self.evals.fetch_add(n, std::sync::atomic::Ordering::Relaxed);
     }
     pub fn count(&self, key: &str, n: u64) {
         *self.inner.lock().unwrap().counters.entry(key.to_string()).or_insert(0) += n;
@@ -101,7 +102,8 @@ impl Report {
 
     /// Write evidence, replay files; print VIOLATION / KNOWN-FINDING lines. Returns exit code.
     pub fn finish(&self, rule: &str, assumptions: &[&str]) -> i32 {
-        let g = self.inner.lock().unwrap();
+        let mut g = self.inner.lock().unwrap();
+        g.evaluations += self.evals.load(std::sync::atomic::Ordering::Relaxed);
         let verif = std::env::var("VERIF_DIR").unwrap_or_else(|_| "/verif".to_string());
         let seed: i64 = std::env::var("VERIF_SEED").ok().and_then(|s| s.parse().ok()).unwrap_or(0);
         let known = load_known(&verif, &self.property);
